@@ -59,7 +59,7 @@ Lemma slice_infallible_complete A B :
   slice_infallible A B.
 Proof.
   intros HA HB Hsm Hall.
-  set (ENV := mkEnv (fun _ => false) (fun _ => 0)).
+  set (ENV := mkEnv (fun _ => false) (fun _ => 0) (fun _ _ => 0)).
   assert (Hone : valid_slice A (mkSlice (mkPtr (al A) (1 * sz A)) 1)).
   { destruct HA as (Hp & Hm & Hs). pose proof (pow2_neq0 _ Hp). unfold valid_slice, small_align, MAX_ALIGN in *.
     cbn [sptr slen addr avail]. big_consts. repeat split; try lia. apply N.mod_same; assumption. }
@@ -91,7 +91,7 @@ Lemma ref_infallible_complete A B :
   ref_infallible A B.
 Proof.
   intros HA HB Hsm Hall.
-  set (ENV := mkEnv (fun _ => false) (fun _ => 0)).
+  set (ENV := mkEnv (fun _ => false) (fun _ => 0) (fun _ _ => 0)).
   assert (Hone : valid_ref A (mkPtr (al A) (sz A))).
   { destruct HA as (Hp & Hm & Hs). pose proof (pow2_neq0 _ Hp). unfold valid_ref, small_align, MAX_ALIGN in *.
     cbn [addr avail]. big_consts. repeat split; try lia. apply N.mod_same; assumption. }
@@ -328,7 +328,7 @@ Theorem must_val_iff A B :
 Proof.
   rewrite must_val_okb_spec. split.
   - intros Hsz ENV a Ha. rewrite (try_cast_char ENV A B a Ha). apply N.eqb_eq in Hsz. rewrite Hsz. eauto.
-  - intros H. set (ENV := mkEnv (fun _ => false) (fun _ => 0)).
+  - intros H. set (ENV := mkEnv (fun _ => false) (fun _ => 0) (fun _ _ => 0)).
     set (a := read_bytes (mem ENV) 0 (sz A)).
     destruct (H ENV a (read_bytes_value ENV A 0)) as [b Hb].
     rewrite (try_cast_char ENV A B a (read_bytes_value ENV A 0)) in Hb.
